@@ -343,11 +343,20 @@ class StringDataEncoding(DataEncoding):
                                  "This is an error since strings must be an integer numbers of bytes.")
             parsed_string = raw_string_buffer.read_as_bytes(strlen_bits).decode(self._python_codec())
         elif self.termination_character is not None:
-            try:
-                tchar_byte_index = raw_string_buffer.index(self.termination_character)
-            except ValueError as exc:
+            # Only look for the termination character on character (code unit) boundaries so that, e.g. in UTF-16,
+            # the second byte of one character and the first byte of the next are never taken for a terminator
+            if self.encoding.startswith("UTF-16"):
+                code_unit_bytes = 2
+            elif self.encoding.startswith("UTF-32"):
+                code_unit_bytes = 4
+            else:
+                code_unit_bytes = 1
+            tchar_byte_index = raw_string_buffer.find(self.termination_character)
+            while tchar_byte_index % code_unit_bytes != 0 and tchar_byte_index != -1:
+                tchar_byte_index = raw_string_buffer.find(self.termination_character, tchar_byte_index + 1)
+            if tchar_byte_index == -1:
                 raise ValueError(f"Reached the end of the raw string buffer {raw_string_buffer} without finding the "
-                                 f"termination character {self.termination_character}") from exc
+                                 f"termination character {self.termination_character}")
             parsed_string = raw_string_buffer.read_as_bytes(tchar_byte_index * 8).decode(self._python_codec())
         else:
             # Indicates there is no further parsing. The raw string value is the whole string value.
